@@ -322,14 +322,17 @@ func VerifEstablishPacing() {
 // vFlakyZK fails the first `fails` lookups: by an error, or (mode[i] true) by not answering at
 // all, so that the lookup runs into the client's regionLookupTimeout.
 type vFlakyZK struct {
-	fails int
-	calls int
-	stuck []bool
-	never chan struct{}
+	fails  int
+	calls  int
+	stuck  []bool
+	never  chan struct{}
+	sleeps *[]time.Duration
 }
 
 func (z *vFlakyZK) LocateResource(zk.ResourceName) (string, error) {
-	i := z.calls
+	// which attempt this is, is told by the waits made so far (a lookup that was abandoned at its
+	// time-out may only get here after the client has moved on)
+	i := len(*z.sleeps)
 	z.calls++
 	if i < z.fails {
 		if z.stuck[i] {
@@ -354,6 +357,7 @@ func VerifLookupPacing() {
 	}
 	c.zkClient = z
 	var sleeps []time.Duration
+	z.sleeps = &sleeps
 	sleepAndIncreaseBackoffOverride = func(ctx context.Context, b time.Duration) (time.Duration, error) {
 		sleeps = append(sleeps, b)
 		return b * 2, nil
@@ -361,8 +365,10 @@ func VerifLookupPacing() {
 	_, addr, err := c.lookupRegion(context.Background(), metaTableName, nil)
 	sleepAndIncreaseBackoffOverride = nil
 	verifAssert(err == nil && addr == "rs0:1", "the lookup succeeds once ZooKeeper answers")
-	verifAssert(z.calls >= n+1, "every failed lookup is retried")
-	verifAssert(len(sleeps) == z.calls-1, "one wait between consecutive lookups, whether the lookup failed by an error or by its timeout")
+	// ZooKeeper fails for as long as fewer than ATTEMPTS waits have been made: a client that retries
+	// without waiting never gets its answer (step budget); one that waits gets it after ATTEMPTS waits
+	// (one more for every answer that arrived after the lookup's own time-out)
+	verifAssert(len(sleeps) >= n, "one wait after every failed lookup, whether it failed by an error or by its timeout")
 	for i, d := range sleeps {
 		verifAssert(d == (16*time.Millisecond)<<uint(i), "the waits follow the schedule")
 	}
